@@ -625,10 +625,18 @@ class CryptographyEngine(api.CryptographicEngine):
                     raise exceptions.CryptographicFailure(
                         "The public key bytes could not be loaded."
                     )
-            cipher_text = public_key.encrypt(
-                plain_text,
-                padding_method
-            )
+            try:
+                cipher_text = public_key.encrypt(
+                    plain_text,
+                    padding_method
+                )
+            except Exception as e:
+                # Data too long for the key, or a key that is not an RSA key.
+                self.logger.exception(e)
+                raise exceptions.CryptographicFailure(
+                    "An error occurred while encrypting the data. See the "
+                    "server log for more information."
+                )
             return {'cipher_text': cipher_text}
         else:
             raise exceptions.InvalidField(
@@ -998,10 +1006,18 @@ class CryptographyEngine(api.CryptographicEngine):
                     raise exceptions.CryptographicFailure(
                         "The private key bytes could not be loaded."
                     )
-            plain_text = private_key.decrypt(
-                cipher_text,
-                padding_method
-            )
+            try:
+                plain_text = private_key.decrypt(
+                    cipher_text,
+                    padding_method
+                )
+            except Exception as e:
+                # Invalid cipher text, or a key that is not an RSA key.
+                self.logger.exception(e)
+                raise exceptions.CryptographicFailure(
+                    "An error occurred while decrypting the data. See the "
+                    "server log for more information."
+                )
             return plain_text
         else:
             raise exceptions.InvalidField(
